@@ -28,7 +28,7 @@ fn main() {
     for e in sess.log() { println!("{:?}", e); }
     match &out { Outcome::Ok(s) => println!("OK {:?}", s.iter().map(|&x| u.solv_label(x)).collect::<Vec<_>>()), o => println!("{}", o.tag()) }
     let d = sess.solver.verif_dump();
-    for (i,c) in d.clauses.iter().enumerate() { println!("#{i} {:?} {:?} why={:?}", c.kind, c.literals, c.why); }
+    for (i,c) in d.clauses.iter().enumerate() { println!("#{i} {:?} {:?} why={:?} watched={:?}", c.kind, c.literals, c.why, c.watched); }
     for a in &d.trail { println!("trail {:?}={} L{} reason #{}", a.var, a.value, a.level, a.reason); }
     println!("{:?}", d.counters);
 }
